@@ -518,6 +518,42 @@ def c03_escape(R):
         )
 
 
+def _parse_contexts(m):
+    """(label, fn, params, tainted, inherited facts, root handler): every module function as a handler, plus - to a
+    depth of three calls - every module function in the role of a helper that is handed a caller's string."""
+    out = []
+    work = []
+    for q, fn in m.functions.items():
+        params, tainted = _taints(fn)
+        work.append((q, fn, params, tainted, [], q, 0))
+    while work:
+        q, fn, params, tainted, inherited, root, depth = work.pop(0)
+        out.append((q, fn, params, tainted, inherited, root))
+        if depth >= 3:
+            continue
+        for c in (x for x in walk_no_nested(fn) if isinstance(x, ast.Call)):
+            if not (isinstance(c.func, ast.Name) and c.func.id in m.functions and c.func.id != q):
+                continue
+            g = m.functions[c.func.id]
+            gps = positional_params(g)
+            handed = {gps[i] for i, a in enumerate(c.args) if i < len(gps) and not isinstance(a, ast.Starred) and _is_tainted(a, params, tainted)}
+            handed |= {k.arg for k in c.keywords if k.arg in gps and _is_tainted(k.value, params, tainted)}
+            if not handed:
+                continue
+            facts = inherited + [(ast.unparse(t), pol) for t, pol in guards.guards_of(c)]
+            gparams, gt = _taints(g)
+            gt = set(gt) | handed
+            changed = True
+            while changed:
+                changed = False
+                for st in walk_no_nested(g):
+                    if isinstance(st, ast.Assign) and isinstance(st.targets[0], ast.Name) and st.targets[0].id not in gt and _is_tainted(st.value, gparams, gt):
+                        gt.add(st.targets[0].id)
+                        changed = True
+            work.append((f"{q} -> {c.func.id}", g, gparams, gt, facts, root, depth + 1))
+    return out
+
+
 @rule(
     "C03.parse",
     props=("C03",),
@@ -530,13 +566,13 @@ def c03_parse(R):
     tree = R.tree
     m = tree.mod(CSTR)
     n = 0
-    for q, fn in m.functions.items():
-        params, tainted = _taints(fn)
+    contexts = _parse_contexts(m)
+    for q, fn, params, tainted, inherited, _root in contexts:
         for c in (x for x in walk_no_nested(fn) if isinstance(x, ast.Call)):
             if dotted(c.func) == "int" and c.args and _is_tainted(c.args[0], params, tainted):
                 n += 1
                 subject = ast.unparse(c.args[0])
-                facts = []
+                facts = list(inherited)
                 for t, pol in guards.guards_of(c):
                     facts.append((ast.unparse(t), pol))
                 checks_digits = any(("isdigit()" in t or "isdecimal()" in t or "fullmatch" in t or "[0-9]" in t) and pol for t, pol in facts)
@@ -552,11 +588,9 @@ def c03_parse(R):
     R.need(n >= 1, "no int() of a caller string found (anchor vanished)")
     # Python refuses to convert more than sys.get_int_max_str_digits() digits at once (4300 by default): a number of
     # caller-chosen length is converted in pieces - int() of a bounded slice, str() of a remainder
-    for q in ("StrToInt", "IntToStr"):
-        fn = m.functions.get(q)
-        if fn is None:
+    for q, fn, params, tainted, _inh, root in contexts:
+        if root not in ("StrToInt", "IntToStr"):
             continue
-        params, tainted = _taints(fn)
         for c in (x for x in walk_no_nested(fn) if isinstance(x, ast.Call)):
             if dotted(c.func) == "int" and c.args and _is_tainted(c.args[0], params, tainted):
                 a = c.args[0]
@@ -573,7 +607,7 @@ def c03_parse(R):
                     f"ValueError, out of the AST constructor, where the solver evaluates the expression",
                     construct=f"{q}: int() of a string of unbounded length",
                 )
-            if dotted(c.func) == "str" and c.args and q == "IntToStr":
+            if dotted(c.func) == "str" and c.args and root == "IntToStr":
                 a = c.args[0]
                 whole = ast.unparse(a).endswith(".value")
                 R.check(
